@@ -648,7 +648,12 @@ func emit(c *hxlib.Ctx, kind string, sc scenario) {
 	cs := hxlib.Case{Kind: kind, Input: sc, Nontrivial: r.nontriv, OracleErr: r.oracle,
 		Key: fmt.Sprintf("%s|%d|%d", sc.Name, len(sc.Ops), c.Rand.Int63())}
 	if !c.OracleOnly && kind != "fault" { // fault scripts: direct oracle only (no database errors in the model)
-		cs.Coq = "(" + r.coqCase() + ")%uint63"
+		// coqc overflows its stack on very large single terms: such scripts stay oracle-only
+		if t := r.coqCase(); len(t) <= 600<<10 && len(r.tbl) <= 12000 {
+			cs.Coq = "(" + t + ")%uint63"
+		} else {
+			c.Note("%s (%d KB as a Coq term): direct oracle only", sc.Name, len(t)/1024)
+		}
 	}
 	c.Emit(cs)
 }
